@@ -16,6 +16,12 @@ CHECKS = {
  "C10": dict(engine="iosim", category="exploration", design="DESIGN.md section 5 (C10)", technique="deterministic simulation of an adversarial file system: generated directory worlds and location strings, byte reads traced at the I/O seam",
    text="Environment-only: no schedule is involved. Seeded (and, in the thorough tier, enumerated to depth 3) location strings x 13 base-directory spellings x 14 read entry points (incl. onnx_ir.load with bare/relative/symlinked model paths) against a tree with in/out symlinks, chained/absolute links, hard links and prefix siblings; oracle = independent stat/realpath classification + inode-level trace of read/mmap/copy_file_range.",
    note="static tree during each read (documented TOCTOU window not exercised); fail-closed rejections of allowed locations are not flagged."),
+ "C01": dict(engine="irsim", category="exploration", design="DESIGN.md sections 4, 6 (C01)", technique="deterministic simulation degenerated to one client: seeded edit histories with rejected calls as faults, global invariant after every step",
+   text="History-only: no concurrency, clock or I/O is involved. Seeded histories of 15-70 public editing calls (44 kinds, ~30% rejected) over several graphs, a nested subgraph, a function and a model; the bidirectional use-def/ownership invariant is recomputed from public accessors over the whole closure after every call, returned or raised.",
+   note="only public calls are issued (node.graph = g and underscore names excluded); the oracle needs no model of what a call should do."),
+ "C06": dict(engine="irsim", category="fault_enumeration", design="DESIGN.md sections 4, 6 (C06)", technique="deterministic simulation degenerated to one client: rejected calls as injected faults, planted at every position of multi-element arguments; snapshot before / after every raise",
+   text="Same histories as C01 with a canonical snapshot of every reachable object (public accessors, identities via registry indices) before every call and compared after every raising call; the thorough tier enumerates op family x invalidity kind x argument length <= 4 x position on seeded base worlds.",
+   note="name-authority counters (private, but listed as state by the statement) are read defensively and reported under a separate clause."),
 }
 NA = [
  ("C02", "pure function of the input proto: no schedule, clock, fault, crash point or history for a simulator to vary (DESIGN.md section 7)"),
